@@ -28,7 +28,7 @@ def mp_grad(kn, xs, cs, z, mat, par, dcoord):
 def run(ck):
     from harness import xr
     ck.rule = ('Kernel.get_function_grads(x, z, coefs, mat) (float64) for all CPU kernels, exponents in range, bandwidths, transforms None / diagonal / '
-               'full symmetric PSD, 1-4 outputs, 1-3 query points, points in general position and coincident with a center: every entry vs the '
+               'full symmetric PSD, 1-4 outputs, 1-3 query points, effective bandwidth equal to / different from the constructed one, points in general position and coincident with a center: every entry vs the '
                'high-precision derivative of the documented closed form (mpmath) and, for the closed-form L2 kernels, vs the Coq op-sequence model '
                '(interval-certified); model level: RFM.get_grads / xRFM.get_grads vs central finite differences of predict.  '
                'non-trivial = >= 2 outputs or a transform; distinct by hash of inputs')
@@ -64,10 +64,14 @@ def run(ck):
         else:
             A = rng.standard_normal((d, d)); mat = A @ A.T / d + 0.1 * np.eye(d)      # symmetric PSD
         T = lambda a: torch.tensor(a, dtype=torch.float64)
-        kobj = make_kernel(xr, kn, L, q, p, cmix, power)
+        # every other block of five: the effective bandwidth differs from the constructed one (as after adaptation / load_state_dict)
+        rebw = ((i // 5) % 2 == 1)
+        kobj = make_kernel(xr, kn, L * (1.7 if rebw else 1.0), q, p, cmix, power)
+        kobj.bandwidth = L
+        ck.count('effective bandwidth != constructed' if rebw else 'effective bandwidth == constructed')
         with xr.quiet():
             G = kobj.get_function_grads(T(X), T(Z), T(coefs), None if mat is None else T(mat)).double().numpy()      # (f, nz, d)
-        desc = dict(i=i, kernel=kn, d=d, nx=nx, nz=nz, f=f, L=L, p=p, q=q, transform=tk, coincide=coincide, seed=ck.seed)
+        desc = dict(i=i, kernel=kn, d=d, nx=nx, nz=nz, f=f, L=L, constructed_L=L * (1.7 if rebw else 1.0), p=p, q=q, transform=tk, coincide=coincide, seed=ck.seed)
         ck.case(dict(desc, X=X.tolist(), Z=Z.tolist()), nontrivial=(f >= 2 or tk != 'none'), sample=(i == 7))
         ck.count(f'kernel={kn}'); ck.count(f'outputs={f}'); ck.count(f'transform={tk}'); ck.count('coincident' if coincide else 'general')
         if G.shape != (f, nz, d) or not np.all(np.isfinite(G)):
@@ -122,7 +126,9 @@ def run(ck):
         X = rng.standard_normal((n, d)); Y = rng.standard_normal((n, nout))
         T = lambda a: torch.tensor(a, dtype=torch.float64)
         xr.seed_all(400 + i)
-        m = xr.RealRFM(kernel=kern, iters=2, bandwidth=2.0, exponent=[1.0, 1.2][i % 2], device='cpu', diag=bool(i % 2), verbose=False, tuning_metric='mse', **extra)
+        bwm = 'adaptive' if (i // 5) % 2 == 0 and kern != 'sum_power_laplace' else 'constant'
+        m = xr.RealRFM(kernel=kern, iters=2, bandwidth=2.0, exponent=[1.0, 1.2][i % 2], device='cpu', diag=bool(i % 2), verbose=False, tuning_metric='mse',
+                       bandwidth_mode=bwm, **extra)
         with xr.quiet():
             m.fit((T(X), T(Y)), (T(X[:10]), T(Y[:10])), iters=2, reg=1e-2, verbose=False)
             Q = T(rng.standard_normal((4, d)))
@@ -134,11 +140,11 @@ def run(ck):
                 fd = ((m.predict(Q + E) - m.predict(Q - E)) / (2 * h)).double().numpy()     # (n_q, n_out)
                 worst = max(worst, float(np.max(np.abs(fd - J[:, :, dc]))))
         scale = float(np.abs(J).max()) + 1e-9
-        ck.case(dict(kind='model-jacobian', kernel=kern, nout=nout, worst=worst), nontrivial=True)
-        ck.count(f'model-level {kern}')
+        ck.case(dict(kind='model-jacobian', kernel=kern, nout=nout, bw=bwm, worst=worst), nontrivial=True)
+        ck.count(f'model-level {kern} bandwidth {bwm}')
         if J.shape != (4, nout, d) or worst > 2e-4 * scale + 1e-6:
             ck.violation(f'RFM.get_grads differs from the finite-difference Jacobian of RFM.predict by {worst:.3g} (scale {scale:.3g}), kernel {kern}, {nout} outputs',
-                         dict(kernel=kern, nout=nout, worst=worst), key=json.dumps(dict(site='model-jacobian', kernel=kern, multi=(nout > 1))))
+                         dict(kernel=kern, nout=nout, bandwidth_mode=bwm, i=i, worst=worst), key=json.dumps(dict(site='model-jacobian', kernel=kern, multi=(nout > 1))))
     # xRFM level (float32, hard routing, multi-leaf, 1-2 trees): row r of xRFM.get_grads must be the (tree-averaged) gradient of the leaf
     # reached by row r — finite differences are useless here (float32 noise, kinks of the q = 1 kernels), the leaf gradients
     # themselves are validated above in float64
